@@ -172,6 +172,57 @@ def h_getitem(ctx, shape, indices, D, P):
             ctx.eq(plain(x.data), exp, 'write through x%s updates the parent' % name)
 
 
+ADV_INDICES = {
+    '[[0,2]]': lambda: ([0, 2],),
+    '[array([2,0])]': lambda: (np.array([2, 0]),),
+    '[mask]': lambda: (np.array([True, False, True]),),
+    '[[1,0],1:]': lambda: ([1, 0], slice(1, None)),
+    '[:,[0,2]]': lambda: (slice(None), [0, 2]),
+    '[[0,1],[2,0]]': lambda: ([0, 1], [2, 0]),
+}
+
+
+def h_setitem_advanced(ctx, shape, iname, D, P, rhs):
+    """item assignment and item access through an ADVANCED index (integer list / array, boolean
+    mask, mixed with slices): every coefficient slice [d, p] behaves like the NumPy array"""
+    algopy = symx.load_algopy()
+    shape = tuple(shape)
+    idx = ADV_INDICES[iname]()
+    X = V(ctx, 'x', (D, P) + shape)
+    x = mk_utpm(ctx, algopy, X)
+    sel = X[0, 0][idx]
+    tshape = sel.shape
+    # access
+    g = plain(x[idx if len(idx) > 1 else idx[0]].data)
+    ctx.fact(g.shape == (D, P) + tshape, 'x%s shape %s' % (iname, g.shape))
+    if g.shape == (D, P) + tshape:
+        for d in range(D):
+            for p in range(P):
+                ctx.eq(g[d, p], X[d, p][idx], 'x%s coefficient [%d,%d]' % (iname, d, p))
+    exp = X.copy()
+    if rhs == 'utpm':
+        W = V(ctx, 'w', (D, P) + tshape)
+        x[idx if len(idx) > 1 else idx[0]] = mk_utpm(ctx, algopy, W)
+        for d in range(D):
+            for p in range(P):
+                exp[d, p][idx] = W[d, p]
+    elif rhs == 'ndarray':
+        C = V(ctx, 'c', tshape)
+        x[idx if len(idx) > 1 else idx[0]] = mk_array(ctx, C)
+        for p in range(P):
+            exp[0, p][idx] = C
+            for d in range(1, D):
+                exp[d, p][idx] = 0
+    else:
+        c = ctx.var('c')
+        x[idx if len(idx) > 1 else idx[0]] = c
+        for p in range(P):
+            exp[0, p][idx] = c
+            for d in range(1, D):
+                exp[d, p][idx] = 0
+    ctx.eq(plain(x.data), exp, 'x%s = <%s>' % (iname, rhs))
+
+
 def h_setitem(ctx, shape, indices, D, P, rhs):
     algopy = symx.load_algopy()
     shape = tuple(shape)
@@ -206,6 +257,15 @@ def h_setitem(ctx, shape, indices, D, P, rhs):
                 x[idx] = x.data[0, 0][idx]
                 for p in range(P):
                     exp[0, p][idx] = X[0, 0][idx]
+                    for d in range(1, D):
+                        exp[d, p][idx] = 0
+            elif rhs == 'own-higher-view':
+                # the constant is a view of the object's own FIRST-order coefficients
+                if len(tshape) == 0 or D < 2:
+                    continue
+                x[idx] = x.data[1, 0][idx]
+                for p in range(P):
+                    exp[0, p][idx] = X[1, 0][idx]
                     for d in range(1, D):
                         exp[d, p][idx] = 0
             elif rhs == 'ndarray':
@@ -456,10 +516,16 @@ def units(tier, seed):
         for b in range(0, len(idxs), 10):
             batch = idxs[b:b + 10]
             add('getitem/%s/batch%d' % (shp, b // 10), 'h_getitem', shape=shp, indices=batch, D=D, P=P)
-        for rhs in ('utpm', 'utpm-broadcast', 'ndarray', 'scalar', 'own-nominal-view'):
+        for rhs in ('utpm', 'utpm-broadcast', 'ndarray', 'scalar', 'own-nominal-view', 'own-higher-view'):
             for b in range(0, len(idxs), 25):
                 batch = idxs[b:b + 25][:: (1 if tier != 'quick' else 2)]
                 add('setitem/%s/%s/batch%d' % (shp, rhs, b // 25), 'h_setitem', shape=shp, indices=batch, D=D, P=P, rhs=rhs)
+    # advanced indices (integer lists / arrays, boolean masks, mixed with slices): access and assignment
+    for iname in ADV_INDICES:
+        shp = (3,) if iname in ('[[0,2]]', '[array([2,0])]', '[mask]') else (2, 3)
+        for rhs in ('utpm', 'ndarray', 'scalar'):
+            add('advanced index %s/%s/%s/D2,P2' % (iname, shp, rhs), 'h_setitem_advanced', shape=shp, iname=iname, D=2, P=2, rhs=rhs)
+    add('advanced index [[0,2]]/(3,)/ndarray/D2,P3', 'h_setitem_advanced', shape=(3,), iname='[[0,2]]', D=2, P=3, rhs='ndarray')
     D, P = (2, 2) if tier == 'quick' else (3, 2)
     for shp, new in [((2, 3), (3, 2)), ((2, 3), (6,)), ((6,), (2, 3)), ((2, 2, 3), (4, 3)), ((2, 3), (-1,)), ((4,), (2, -1))]:
         add('reshape/%s->%s' % (shp, new), 'h_shapeop', op='reshape', shape=shp, D=D, P=P, arg=new)
